@@ -1,0 +1,10 @@
+// Copyright Suneido Software Corp. All rights reserved.
+// Governed by the MIT license found in the LICENSE file.
+
+//go:build !verif
+
+package db19
+
+func verifMsgInfo(any) (int, string) {
+	return 0, ""
+}
